@@ -6,9 +6,9 @@ READY = True
 META = {
     "technique": "Lean 4 proof of a certificate checker for push/pop balance of instruction streams + translation validation: the verified checker runs on every real instruction stream (repo fixtures, exhaustive enumeration of nestings with break/continue/recursion) + reference-interpreter and depth-counter oracle on the real engine",
     "category": "proof",
-    "text": "Kernel-checked theorem checkCert_sound: if the verified checker accepts a certificate for an instruction stream, then from every region entry (pc 0, every macro body) EVERY reachable state of the abstract VM (all branches of conditional jumps and Iterate, any iteration count, any depth of loop(...) recursion) never pops a frame / capture / auto-escape entry the region did not push nor a frame of the wrong kind, and every exit (end of stream, Return) carries exactly the entry depths; corollary: frames, capture depth and auto-escape depth at a pc are path independent (text after a construct goes to the same output target whichever path was taken). The check compiles the repository's templates and an exhaustive enumeration of nestings of for/for-else/filtered for/recursive for/with/set-block/filter/autoescape/if/macro/call/block (+ completed sibling constructs) with break/continue/loop()/empty bodies at the innermost position with the REAL compiler, and runs the verified checker on every stream (main, blocks, macro bodies). Dynamic oracle: every shape is rendered on the real engine in contexts taking different branches and compared with an independent reference interpreter (sentinel text + auto-escape probe + scope probe after every construct), and feature-guarded counters compare frame depth, capture depth, auto-escape mode and auto-escape stack at entry and normal exit of every eval_impl activation.",
+    "text": "Kernel-checked theorem checkCert_sound: if the verified checker accepts a certificate for an instruction stream, then from every region entry (pc 0, every macro body) EVERY reachable state of the abstract VM (all branches of conditional jumps and Iterate, any iteration count, any depth of loop(...) recursion) never pops a frame / capture / auto-escape entry the region did not push nor a frame of the wrong kind, and every exit (end of stream, Return) carries exactly the entry depths; corollary: frames, capture depth and auto-escape depth at a pc are path independent (text after a construct goes to the same output target whichever path was taken). The check compiles the repository's templates and an exhaustive enumeration of nestings of for/for-else/filtered for/recursive for/with/set-block/filter/autoescape/if/macro/call/block (+ completed sibling constructs) with break/continue/loop()/empty bodies at the innermost position with the REAL compiler, and runs the verified checker on every stream (main, blocks, macro bodies). nested_restores: in the model MJ/Model/Nested.lean of with_execution_state / eval_macro (Macro::call, State::call_macro) / call_block (State::render_block) / perform_super / perform_include, frames, recursion depth, instructions, auto-escape mode, current block, block table and loaded templates after the wrapper equal those before it on the Ok AND on the Err outcome of the nested evaluation (the caller's Output is untouched by macro calls and render_block, which write into their own Output). Dynamic oracle: every shape is rendered on the real engine in contexts taking different branches and compared with an independent reference interpreter (sentinel text + auto-escape probe + scope probe after every construct), and feature-guarded counters compare frame depth, capture depth, auto-escape mode and auto-escape stack at entry and normal exit of every eval_impl activation.",
     "design_ref": "DESIGN.md §3 C05, §2.3(c), §2.7",
-    "level_note": "Proved: soundness of checkCert for the abstract VM of MJ/Model/Bal.lean (hand model of the balance-relevant part of vm/mod.rs eval_impl: PushWith/PopFrame/PushLoop/Iterate/PushDidNotIterate/PopLoopFrame/BeginCapture/EndCapture/PushAutoEscape/PopAutoEscape/Jump*/FastRecurse/CallFunction-on-loop/Return/BuildMacro; operand stack not tracked). NOT proved: the code generator — it is covered by translation validation of every real stream (verified checker on the real output of codegen.rs), not by a theorem about codegen.rs; templates outside the enumerated box are covered only in so far as they are compiled and checked (any stream can be checked with `c05 src`). Trusted: harness token mapping of the Instruction enum (exhaustive match, breaks the build on a new instruction), the untrusted certificate inference only proposes (checkCert decides). Model assumptions: a loop object is only called (CallFunction) while its loop is live in the calling activation's own frame stack (passing `loop` into a macro and calling it there is exercised dynamically but not modelled); LoadBlocks' discard capture is popped by the end-of-stream logic and is not counted; nested evaluations (CallBlock, FastSuper, Include, macro calls) are separate activations whose own regions are certified and whose entry/exit depths are compared by the verif_hooks counters; error exits abort the whole render and are not balance-checked (with_execution_state's restore on Err is not modelled); a template that includes itself from inside a recursive loop and calls loop() outside that loop's text is outside the model (FastRecurse with no loop in the region is modelled as the error it is in every other situation); compile_has_cert (a theorem about a model of codegen.rs) is NOT provided.",
+    "level_note": "Proved: soundness of checkCert for the abstract VM of MJ/Model/Bal.lean (hand model of the balance-relevant part of vm/mod.rs eval_impl: PushWith/PopFrame/PushLoop/Iterate/PushDidNotIterate/PopLoopFrame/BeginCapture/EndCapture/PushAutoEscape/PopAutoEscape/Jump*/FastRecurse/CallFunction-on-loop/Return/BuildMacro; operand stack not tracked). NOT proved: the code generator — it is covered by translation validation of every real stream (verified checker on the real output of codegen.rs), not by a theorem about codegen.rs; templates outside the enumerated box are covered only in so far as they are compiled and checked (any stream can be checked with `c05 src`). Trusted: harness token mapping of the Instruction enum (exhaustive match, breaks the build on a new instruction), the untrusted certificate inference only proposes (checkCert decides). Model assumptions: a loop object is only called (CallFunction) while its loop is live in the calling activation's own frame stack (passing `loop` into a macro and calling it there is exercised dynamically but not modelled); LoadBlocks' discard capture is popped by the end-of-stream logic and is not counted; nested evaluations (CallBlock, FastSuper, Include, macro calls) are separate activations whose own regions are certified and whose entry/exit depths are compared by the verif_hooks counters; the restore-on-error of the nested-evaluation wrappers is modelled separately (MJ/Model/Nested.lean, hand transcription; hypotheses on the nested body: it only pushes frames on top of / pops its own frames (what checkCert_sound gives), block stacks only grow by LoadBlocks) and exercised dynamically through error-swallowing Rust callbacks (try_call / try_block) with sentinel probes (root variable, with-variable, macro argument, escape mode, template name, current block) and the verif_hooks ExecSnapshot comparison around Macro::call and State::render_block on both outcomes; on the error path of a capturing super() / an instruction-driven CallBlock / Include the shared Output is left with open captures by design of the code (the error always propagates to the owner of that Output: a macro call, render_block or the top-level render, which drops it); a template that includes itself from inside a recursive loop and calls loop() outside that loop's text is outside the model (FastRecurse with no loop in the region is modelled as the error it is in every other situation); compile_has_cert (a theorem about a model of codegen.rs) is NOT provided.",
 }
 
 BALANCE_FILES = ("vm/mod.rs", "vm/context.rs", "vm/state.rs", "vm/loop_object.rs", "vm/macro_object.rs", "output.rs",
@@ -22,15 +22,18 @@ def run(r):
     depth = 4 if r.tier == "thorough" else 3
     r.rule = (f"every instruction stream (main, each block; macro bodies are regions inside the main stream) of: all "
               f"fixture templates of /repo (tests/inputs, refs, every *.html/*.j2 that compiles), 4 multi-template sets, "
-              f"ALL chains of depth <= {depth} over 20 construct kinds x 6 innermost leaves (text, empty body, break, "
-              f"continue, loop(x), loop(x)|filter) that are lexically admissible, plus a seeded sample of deeper chains; "
+              f"ALL chains of depth <= {depth} over 25 construct kinds x 8 innermost leaves (text, empty body, break, "
+              f"continue, loop(x), loop(x)|filter, run-time failure, failure in the iteration x == k) that are admissible, "
+              f"plus a seeded sample of deeper chains; error recovery: macros, call-block callers and blocks invoked from "
+              f"Rust functions (Value::call / State::render_block) that swallow the failure, with bodies failing after "
+              f"opening with/for/capture/autoescape scopes, inside nested macro calls / includes and inside loops of the caller; "
               f"dynamic: each shape rendered under all combinations of empty/non-empty iterable, both branches of "
               f"conditions, break/continue in first/later iteration; a case is non-trivial when its stream contains at "
               f"least one scope/capture/escape/loop instruction")
     r.assumptions = [
         "a loop object is only called while its loop is live in the calling activation's frame stack",
         "nested evaluations (blocks, super, include, macros) are separate activations: certified per stream and compared by the run-time depth counters",
-        "error exits abort the render; balance is required on normal exits only",
+        "an Output with open captures is only ever abandoned as a whole (errors propagate to the macro call / render_block / render that owns it)",
         "FastRecurse with no loop frame of the region on the stack is an error (true unless a template includes itself from inside its own recursive loop)",
         "what happens to text captured before a break/continue leaves the capture is unspecified (the engine drops it); only text outside such captures must appear",
     ]
@@ -112,7 +115,7 @@ def run(r):
                     r.hist["dynamic"]["panic-elsewhere(C01):" + loc] += 1
                     continue
             r.count(case + " @" + ctx, True)
-            fk = ("panic@" + what.split("@", 1)[1].split(":")[0].split("|")[0] if "@" in what else "panic") if what.startswith("panic") else ("depth-mismatch" if "depth-mismatch" in what else
+            fk = ("panic@" + what.split("@", 1)[1].split(":")[0].split("|")[0] if "@" in what else "panic") if what.startswith("panic") else ("nested-not-restored" if "nested-not-restored" in what else "depth-mismatch" if "depth-mismatch" in what else
                  ("output" if what.startswith("output") else what.split(":")[0].split("[")[0]))
             site = f"dyn:{cls if cls not in ('fixture', 'extra') else case}:{fk}"
             r.oracle_failure(f"{case} @{ctx}", f"engine vs reference/counters: {what[:400]}", site)
